@@ -100,19 +100,18 @@ fn parse_tree(
 }
 
 fn cmp_with_suffix(a: (u32, &[u8]), b: (u32, &[u8])) -> std::cmp::Ordering {
-    let len = std::cmp::min(a.1.len(), b.1.len());
-    let cmp = a.1[..len].cmp(&b.1[..len]);
-    if cmp != std::cmp::Ordering::Equal {
-        return cmp;
-    }
-
-    let c1 =
-        a.1.get(len)
-            .map_or_else(|| if (a.0 & S_IFMT) == S_IFDIR { b'/' } else { 0 }, |&c| c);
-    let c2 =
-        b.1.get(len)
-            .map_or_else(|| if (b.0 & S_IFMT) == S_IFDIR { b'/' } else { 0 }, |&c| c);
-    c1.cmp(&c2)
+    // Compare the names as if directories had a trailing '/', over their whole
+    // length (this is the sort key of the Python implementation, key_entry()).
+    let suffix = |mode: u32| {
+        if (mode & S_IFMT) == S_IFDIR {
+            Some(b'/')
+        } else {
+            None
+        }
+    };
+    let ka = a.1.iter().copied().chain(suffix(a.0));
+    let kb = b.1.iter().copied().chain(suffix(b.0));
+    ka.cmp(kb)
 }
 
 /// Iterate over a tree entries dictionary.
